@@ -647,7 +647,17 @@ def _bounded_worker(args):
             env = {g: (k, False) for g, k in zip(gs, combo)}
             runs += 1
             a = sem.run_src(t, env)
-            b = sem.run_tgt(code, env)
+            try:
+                b = sem.run_tgt(code, env)
+            except KeyError as ke:
+                if ke.args and isinstance(ke.args[0], str) and ke.args[0] not in env:
+                    # the compiled code calls a goal that does not occur in the body it was compiled from
+                    # (what that goal does is defined elsewhere: not decided here, and not an accusation)
+                    if len(problems) < 3:
+                        problems.append(('error', 'the body  %s  compiles to  %s , which calls the goal %s that is not part of the body: '
+                                         'the bounded check cannot run it' % (sem.show(t), sem.show_code(code), ke.args[0]), ''))
+                    break
+                raise
             if a != b:
                 if len(problems) < 3:
                     problems.append(('viol', sem.show(t), 'the body  %s  compiles to  %s , which does not behave like it: with %s the source '
